@@ -15,6 +15,7 @@
 package core
 
 import (
+	"syscall"
 	"bufio"
 	"encoding/json"
 	"fmt"
@@ -55,6 +56,7 @@ type Ctx struct {
 	trace    bool
 	list     bool
 	next     int // first own case not run because the worker is being recycled
+	recycle  bool
 	deadline time.Time
 }
 
@@ -113,8 +115,26 @@ func (c *Ctx) Thorough() bool { return c.Tier == "thorough" }
 // Stopping reports that remaining cases will be skipped (deadline reached or
 // the worker is being recycled); drivers may use it to leave loops early.
 func (c *Ctx) Stopping() bool {
-	return c.Expired() || (c.maxCases > 0 && c.ran >= c.maxCases)
+	return c.Expired() || c.recycle || (c.maxCases > 0 && c.ran >= c.maxCases)
 }
+
+// RequestRecycle asks for this worker process to be replaced: the current case is left (the driver
+// has saved how far it got) and the orchestrator starts a new worker at this same case.
+func (c *Ctx) RequestRecycle() {
+	c.recycle = true
+	if c.next < 0 {
+		c.next = c.cur
+	}
+}
+
+// Recycling reports whether RequestRecycle was called.
+func (c *Ctx) Recycling() bool { return c.recycle }
+
+// CaseName is the name of the case being run.
+func (c *Ctx) CaseName() string { return c.curName }
+
+// HeapBytes is the live heap as the runtime reports it.
+func HeapBytes() uint64 { return heapBytes() }
 
 func (c *Ctx) emit(m map[string]interface{}) {
 	b, _ := json.Marshal(m)
@@ -175,6 +195,9 @@ func (c *Ctx) Case(name string, fn func()) bool {
 	if c.Expired() {
 		return false
 	}
+	if c.recycle {
+		return false
+	}
 	if c.maxCases > 0 && c.ran >= c.maxCases {
 		if c.next < 0 {
 			c.next = n
@@ -189,6 +212,10 @@ func (c *Ctx) Case(name string, fn func()) bool {
 	fn()
 	Tick()
 	c.emit(map[string]interface{}{"t": "E", "n": n})
+	if c.recycle {
+		c.out.Flush()
+		return true // continued by the next worker: not counted as run here
+	}
 	c.ran++
 	if c.ran%64 == 0 {
 		c.out.Flush()
@@ -213,6 +240,11 @@ func (c *Ctx) Violation(sig, detail string) {
 	}
 	c.emit(map[string]interface{}{"t": "V", "n": c.cur, "name": c.curName, "sig": sig, "detail": detail, "part": c.Part})
 	c.out.Flush()
+	if stop := os.Getenv("VF_STOP_ON_SIG"); stop != "" && stop == sig {
+		// a confirmation replay: the violation reappeared, nothing more is needed
+		c.Finish()
+		syscall.Exit(0)
+	}
 }
 
 func (c *Ctx) Violationf(sig, format string, a ...interface{}) {
